@@ -49,10 +49,14 @@ _tree("C03", "seeded interleavings of getPayload / getPayloadRef / getPosition /
 _tree("C05", "seeded populate loops (nested level by level) whose body is the scheduler: assign / accumulate / leave / "
       "write the default / descend / cancel at any yield, interleaved with reads of the destination and mutation of "
       "unrelated tensors; yielded sequence, offered references, source immutability and final content checked against "
-      "the model. distinct/non-trivial as C01")
+      "the model; the range an uncompressed source presents is modelled (declared shape, else largest coordinate + 1 at "
+      "the time of the loop) where no operation ever set an active range. distinct/non-trivial as C01")
 _tree("C10", "value-returning and read-only operations applied to tensors in reached states; operands snapshotted "
       "before/after, identity sets of all tensors pairwise disjoint, both sides mutated afterwards and cross-talk "
-      "detected by snapshot comparison after every event. distinct/non-trivial as C01")
+      "detected by snapshot comparison after every event; Fiber.copy results are compared (owner chain included) before "
+      "they are wrapped; for read-only operations a deep copy taken before and one taken after the operation are grown "
+      "by the same element and must answer every shape / active-range / walk query alike (hidden state). "
+      "distinct/non-trivial as C01")
 
 
 # ------------------------------------------------------------------------------------ KernelSim
@@ -66,7 +70,7 @@ REAL_KERNEL = dict(REAL_CORE, **{
 })
 
 KERNEL_ASSUME = [
-    "kernels come from a 13-member einsum family (1-3 operands, 1-3 index variables) written in the library's idiom; shapes <= 5",
+    "kernels come from a 15-member einsum family (1-3 operands, 1-3 index variables) written in the library's idiom; shapes <= 5",
     "single-threaded; a body exception unwinds the nest innermost-first exactly as Python does",
     "seeded search over (einsum, operands); loop orders, tile sizes of one rank and intersection styles are enumerated per sampled case",
 ]
@@ -91,7 +95,10 @@ REGISTRY["C15"] = {
             "collection off, then a history of 0-6 sessions of arbitrary kernels / registrations / thresholds that end "
             "normally, by a body exception, abandoned, rejected by an undrained consumable trace or by an injected "
             "OSError at a file event, then the target session again; counts are compared with the interpreter's own, "
-            "dump() and trace files with the first-session run. distinct = distinct event-log digest; non-trivial = "
+            "dump() and trace files with the first-session run; loop bodies are spelled three ways (box*box, scalar*box, "
+            "box*scalar; +=, z <<= z + p, z <<= 0 + p), tilings include dynamic partitioning by a list or a leader fiber "
+            "inside the session, earlier sessions may also leave loops early (break); plus a tile-by-tile output update "
+            "with the position shortcut (start_pos) run off / on / on with populate traces. distinct = distinct event-log digest; non-trivial = "
             "at least two kernel executions",
     "components": REAL_KERNEL, "assumptions": KERNEL_ASSUME,
 }
@@ -101,7 +108,9 @@ REGISTRY["C16"] = {
             "threshold in {2,3,5,7,64,1000} with all trace types registered, and twice with consumable traces drained "
             "at scheduler-chosen loop boundaries; every trace is parsed and judged (header, one row per access from a "
             "shadow merge of the raw coordinate lists, stamp order, addressing and position), files compared across "
-            "thresholds and with the concatenated in-memory batches. distinct = distinct event-log digest; "
+            "thresholds and with the concatenated in-memory batches (the consumer hands its batches to real intersection "
+            "model objects); plus a kernel over a flattened rank and kernels over projected fibers (project_i traces, the "
+            "two idioms the library's tests use, intervals, start positions, explicit defaults). distinct = distinct event-log digest; "
             "non-trivial = at least two sessions",
     "components": REAL_KERNEL, "assumptions": KERNEL_ASSUME + [
         "every element a co-iteration fetched is an access and must have a row, including the look-ahead element read when the other side ran out",
@@ -112,7 +121,9 @@ REGISTRY["C19"] = {
     "rule": "each evaluation is one sampled kernel with a two-operand intersection under 0-2 outer loops; for each of "
             "the three models the consumer task drains the consumable traces into a fresh intersector at every subset "
             "of the first four fiber boundaries (complete), at all boundaries, only at the end, and at random subsets; "
-            "totals are compared with merge counters on the raw coordinate lists. distinct = distinct event-log digest",
+            "totals are compared with merge counters on the raw coordinate lists; Compute.numSwaps (pure) is checked as a "
+            "piggy-back: exact for finite latency, exact for unbounded latency when all coordinates are distinct, bounds "
+            "otherwise, independent of payload values. distinct = distinct event-log digest",
     "components": REAL_KERNEL, "assumptions": KERNEL_ASSUME,
 }
 
@@ -138,7 +149,7 @@ REGISTRY["C17"] = {
     "assumptions": [
         "input traces are well-formed in the sense of C16 (stamps non-decreasing, positions consistent per fiber)",
         "nothing is required of the aborted call itself (it may leave temporaries)",
-        "exact optimality is demanded for single-binding read-only cache configurations; with writes (pinned staging lines) or several bindings only the metamorphic bounds are demanded",
+        "exact optimality is demanded for single-binding read-only cache configurations; with writes and a capacity below one line an exact model (only staging lines are ever resident) is demanded; with writes and larger capacities or several bindings only the metamorphic bounds are demanded",
         "abort points are enumerated completely per sampled pipeline when it has at most the per-tier cap of file events, sampled otherwise (reported)",
     ],
 }
